@@ -10,6 +10,43 @@ let n_bits = function N0 -> "0" | Npos p -> pos_bits p
 let z_bits = function Z0 -> "0" | Zpos p -> pos_bits p | Zneg p -> "-" ^ pos_bits p
 let dec_s d = Printf.sprintf "%s:%s:%s" (if d.d_neg then "1" else "0") (n_bits d.d_mant) (z_bits d.d_exp)
 let value_s = function VNum d -> "N" ^ dec_s d | VFrac (a, b) -> "F" ^ dec_s a ^ "/" ^ dec_s b
+
+(* ---- pyval token encoding (prefix): N | B0 | B1 | I<int> | F<k> | Fp | Fm | S<hex> | L<n> v.. | T<n> v.. | D<n> (khex v).. ---- *)
+let rec cstring_of_list = function [] -> EmptyString | c :: r -> String (c, cstring_of_list r)
+let rec list_of_cstring = function EmptyString -> [] | String (c, r) -> c :: list_of_cstring r
+let int_of_ascii (Ascii (b0, b1, b2, b3, b4, b5, b6, b7)) =
+  let v b i = if b then 1 lsl i else 0 in
+  v b0 0 + v b1 1 + v b2 2 + v b3 3 + v b4 4 + v b5 5 + v b6 6 + v b7 7
+let hex_of_cstring s =
+  let l = list_of_cstring s in
+  if l = [] then "-" else String.concat "" (Stdlib.List.map (fun c -> Printf.sprintf "%02x" (int_of_ascii c)) l)
+let cstring_of_hex h = if h = "-" then EmptyString else cstring_of_list (str_of_hex h)
+let rec int_of_pos = function XH -> 1 | XO p -> 2 * int_of_pos p | XI p -> 2 * int_of_pos p + 1
+let int_of_z = function Z0 -> 0 | Zpos p -> int_of_pos p | Zneg p -> - (int_of_pos p)
+let tl1 t = String.sub t 1 (String.length t - 1)
+let rec read_val () : pyval =
+  let t = next () in
+  match t.[0] with
+  | 'N' -> PNone
+  | 'B' -> PBool (t = "B1")
+  | 'I' -> PInt (z_of_int (int_of_string (tl1 t)))
+  | 'F' -> if t = "Fp" then PFloat PosInf else if t = "Fm" then PFloat NegInf else PFloat (Fin (z_of_int (int_of_string (tl1 t))))
+  | 'S' -> PStr (cstring_of_hex (tl1 t))
+  | 'L' -> let n = int_of_string (tl1 t) in PList (Stdlib.List.init n (fun _ -> read_val ()))
+  | 'T' -> let n = int_of_string (tl1 t) in PTuple (Stdlib.List.init n (fun _ -> read_val ()))
+  | 'D' -> let n = int_of_string (tl1 t) in PDict (Stdlib.List.init n (fun _ -> let k = cstring_of_hex (next ()) in let v = read_val () in (k, v)))
+  | _ -> failwith ("bad value token " ^ t)
+let rec show_val (v : pyval) : Stdlib.String.t =
+  match v with
+  | PNone -> "N"
+  | PBool b -> if b then "B1" else "B0"
+  | PInt z -> "I" ^ string_of_int (int_of_z z)
+  | PFloat PosInf -> "Fp" | PFloat NegInf -> "Fm" | PFloat (Fin z) -> "F" ^ string_of_int (int_of_z z)
+  | PStr s -> "S" ^ hex_of_cstring s
+  | PList l -> String.concat " " (("L" ^ string_of_int (Stdlib.List.length l)) :: Stdlib.List.map show_val l)
+  | PTuple l -> String.concat " " (("T" ^ string_of_int (Stdlib.List.length l)) :: Stdlib.List.map show_val l)
+  | PDict l -> String.concat " " (("D" ^ string_of_int (Stdlib.List.length l)) :: Stdlib.List.map (fun (k, v) -> hex_of_cstring k ^ " " ^ show_val v) l)
+let dict_of = function PDict l -> l | _ -> failwith "expected a dict"
 let () = main_with (fun () -> ()) (fun _ k -> match k with
   | "nist_string" ->
     let s = if !pos < Array.length !toks then str_of_hex (next ()) else [] in
@@ -24,4 +61,15 @@ let () = main_with (fun () -> ()) (fun _ k -> match k with
      | Inl (LineError (i, _)) -> print_endline ("LineError " ^ string_of_int (int_of_nat i))
      | Inl ZeroDivEscapes -> print_endline "ZeroDivisionError"
      | Inr ps -> print_endline ("ok " ^ String.concat " " (Stdlib.List.map (fun (a, b) -> value_s a ^ "," ^ value_s b) ps)))
+  | "saveload" ->
+    let o = dict_of (read_val ()) in
+    (match saveLoad o with
+     | None -> print_endline "none"
+     | Some (c, o') -> print_endline ("ok " ^ hex_of_cstring c ^ " " ^ show_val (PDict o') ^ " | " ^ show_val (PDict (norm_obj o))))
+  | "construct" ->
+    let cn = cstring_of_hex (next ()) in
+    let args = (match read_val () with PList l -> l | _ -> failwith "expected a list") in
+    (match class_by_name cn with
+     | None -> print_endline "noclass"
+     | Some c -> (match construct0 c args with None -> print_endline "none" | Some o -> print_endline ("ok " ^ show_val (PDict o))))
   | _ -> failwith ("unknown command " ^ k))
